@@ -25,6 +25,24 @@ Theorem C08_approve_if : forall e st c a sender funds id,
 Proof. exact approve_ask_live. Qed.
 Print Assumptions C08_approve_if.
 
+(* "only once": once an approval has been accepted, every further approval of the same ask -- by the same approver or
+   any other sender, with any funds, base or size, in any environment -- is refused (the ask is no longer pending);
+   any state, no hypothesis.  Over histories the class never returns to pending (C11_orders_evolve), so this holds
+   for as long as the ask stays on the book. *)
+Theorem C08_only_once : forall e st sender funds id base size st' r,
+  execute FX e st sender funds (ApproveAsk id base size) = Ok (st', r) ->
+  forall e2 sender2 funds2 base2 size2,
+    exists t, execute FX e2 st' sender2 funds2 (ApproveAsk id base2 size2) = Refused t.
+Proof.
+  intros e st sender funds id base size st' r H e2 sender2 funds2 base2 size2.
+  apply C08_approve_only_if in H as (c & a & _ & _ & _ & _ & _ & _ & _ & Hst & _).
+  destruct (execute FX e2 st' sender2 funds2 (ApproveAsk id base2 size2)) as [[st2 r2]|t] eqn:E; [|eauto].
+  exfalso. apply C08_approve_only_if in E as (c2 & a2 & _ & _ & _ & Hl & Hp & _).
+  subst st'. cbn [set_asks st_asks] in Hl. rewrite lookup_insert_eq in Hl. injection Hl as <-.
+  unfold approved in Hp. cbn [a_class] in Hp. discriminate.
+Qed.
+Print Assumptions C08_only_once.
+
 (* in every state reachable from an instantiation, by any history (fills, partial rejects, expiries, cancels,
    configuration changes, other orders), the approver-supplied amount recorded for an approved ask equals the
    ask's remaining size, in the contract's base denomination *)
